@@ -9,7 +9,7 @@ from common import hexs
 
 META = {
     "property": "C08",
-    "proof_modules": ["PyodaProofs.C08", "PyodaProofs.C08Create", "PyodaProofs.C08Stepped", "PyodaProofs.C08StepsWF", "PyodaProofs.C08DateTime", "PyodaProofs.C08DateTimeWF", "PyodaProofs.C08Segmented"],
+    "proof_modules": ["PyodaProofs.C08", "PyodaProofs.C08Create", "PyodaProofs.C08Stepped", "PyodaProofs.C08StepsWF", "PyodaProofs.C08DateTime", "PyodaProofs.C08DateTimeWF", "PyodaProofs.C08Segmented", "PyodaProofs.C08Calendar", "PyodaProofs.C08CalendarSeg", "PyodaProofs.C08CalendarTop", "PyodaProofs.C08Instant"],
     "drivers": ["drv_text"],
     "theorems": [
         "Pyoda.C08.parseDigits_total",
@@ -100,6 +100,44 @@ META = {
         "Pyoda.C08.compileDateTime_segWF",
         "Pyoda.C08.datetime_success_valid_all",
         "Pyoda.C08.instant_success_valid_all",
+        "Pyoda.C08.compileDateC_total",
+        "Pyoda.C08.compileDateTimeC_total",
+        "Pyoda.C08.parseStep_total_all",
+        "Pyoda.C08.parseSteps_total_all",
+        "Pyoda.C08.parseStep_calOK",
+        "Pyoda.C08.parseSteps_calOK",
+        "Pyoda.C08.calcOfInt_some",
+        "Pyoda.C08.dateValueG_total",
+        "Pyoda.C08.twoEra_bounds",
+        "Pyoda.C08.greg_dim_eq",
+        "Pyoda.C08.inCal_of_validDate",
+        "Pyoda.C08.validDate_of_inCal",
+        "Pyoda.C08.dateValueC_valid",
+        "Pyoda.C08.addOne_ok_or_overflow",
+        "Pyoda.C08.dateValueG_valid",
+        "Pyoda.C08.dtValueG_spec",
+        "Pyoda.C08.parseCompiled_dateC_spec",
+        "Pyoda.C08.parseCompiled_datetimeC_spec",
+        "Pyoda.C08.parseSegsG_spec",
+        "Pyoda.C08.dtValueEG_spec",
+        "Pyoda.C08.parseSegmentedG_spec",
+        "Pyoda.C08.retarget_segWF",
+        "Pyoda.C08.compileDateC_patWF",
+        "Pyoda.C08.compileDateTimeC_patWF",
+        "Pyoda.C08.parsePat_date_spec",
+        "Pyoda.C08.parsePat_dateC_spec",
+        "Pyoda.C08.date_parse_total_all",
+        "Pyoda.C08.date_success_valid_all",
+        "Pyoda.C08.dateC_parse_spec",
+        "Pyoda.C08.parsePat_datetimeC_spec",
+        "Pyoda.C08.parsePat_datetime_spec",
+        "Pyoda.C08.datetime_parse_total_all",
+        "Pyoda.C08.datetime_success_valid_cal",
+        "Pyoda.C08.datetimeC_parse_spec",
+        "Pyoda.C08.instant_parse_spec",
+        "Pyoda.C08.dateResult_iso",
+        "Pyoda.C08.daysOfDate_inCal",
+        "Pyoda.C08.parseInstant_spec",
     ],
     "trusted_base": [
         "str indexing inside _ValueCursor is guarded by the cursor's own length checks (modelled as list operations)",
@@ -109,7 +147,9 @@ META = {
         "pattern creation: compile_total is proved for EVERY pattern text of LocalTime, LocalDate (ISO template), Offset, LocalDateTime (ISO template value; embedded ld<...>/lt<...> patterns included: Pat.segmented), AnnualDate (any template) and Duration patterns, and for the Instant adapter (compileInstant_total) — custom texts, standard letters, Z prefix, composites — tied to the real builders by suite text.pat.compile (outcome class, used-field mask, number of actions); the sample formatting done at construction and non-ISO template calendars are covered by the malformed-pattern oracle only",
         "generic engine (tied to the code by suites text.pat.compile/fmt/parse): parse_total and success_value_valid hold for EVERY accepted LocalTime, Offset and Duration pattern text in every culture record (time_/offset_/duration_parse_total, time_/offset_/duration_success_valid: a Duration success lies between min_value and max_value) and for EVERY accepted AnnualDate pattern text and template (annual_parse_total; annual_success_valid under monthHeadsEmpty); success_value_valid holds for EVERY accepted LocalDate pattern text (default template) and every accepted LocalDateTime / Instant pattern text (any valid ISO template value; 24:00 roll-over included; embedded parts: next item) in every culture record whose month-name tables start with the empty entry of index 0 (date_success_valid, datetime_success_valid, instant_success_valid; hypothesis monthHeadsEmpty evaluated per run on the sampled cultures, failing cultures listed in the notes); parse_total for LocalDate/LocalDateTime/Instant holds for every compiled pattern without the calendar field (date_parse_total, datetime_parse_total: era, month/day names, am/pm and embedded ld<...>/lt<...> patterns included: parseSegmented_total)",
         "LocalDateTime/Instant patterns WITH embedded parts (Pat.segmented): success_value_valid is proved for every segmented pattern passing the decidable check segWF (parseSegmented_valid: plain steps and embedded patterns well formed, used fields accounted for, an embedded date/time present where its field bit is set and no plain step assigning its slots) and creation only builds such patterns (compileSegmented_segWF, compileDateTime_segWF), hence datetime_success_valid_all / instant_success_valid_all: EVERY accepted LocalDateTime / Instant pattern text, embedded parts or not, any valid ISO template value, under the culture hypothesis monthHeadsEmpty; segWF is also evaluated by the compiled model on every segmented pattern of the run (op pat.wf = 2; a 0 is an infrastructure error)",
-        "NOT covered by theorems: the calendar field on texts naming a calendar other than ISO, non-ISO calendars and template values, the Instant <-> UTC date-time conversion of the adapter, str.lower() beyond ASCII, ICU culture data extraction; exceptions originating in ICU or in culture construction are outside the model",
+        "ALL 19 CALENDARS (C08Calendar*.lean): every parse action is total for every text (parseStep_total_all: the calendar step assigns the bucket's calendar slot, nothing is outside the model) so NO pattern hypothesis (patOK) is left: date_parse_total_all / datetime_parse_total_all / instant_parse_spec / dateC_parse_spec / datetimeC_parse_spec hold for EVERY accepted pattern text — calendar field or not, embedded parts or not, template value in any of the 19 calendars — in every culture record with monthHeadsEmpty; a success carries a date its calendar has (InCal: year inside the calendar, month inside the year, day inside the month, through the calendar descriptions Calendar.Calc of property C01) and a time inside the day (date_success_valid_all, datetime_success_valid_cal: DateResult / DtResult; an ISO result is a validDate: dateResult_iso); calculate_value is modelled with the repaired behaviour (template year outside the calendar read from the text = failure, template era the calendar lacks = the calendar's latest era) and dateValueC_valid is proved for it; the LocalDateTime theorems (24:00 roll-over = plus_days(1) in the calendar, model DateArith.addFixed of property C09: a date of the calendar or OverflowError -> failure, addOne_ok_or_overflow) assume AllWF = every calendar description satisfies C01.WF (theorems greg_wf / jul_wf / copt_wf; for the other calendars wfCheck_sound applied to the evaluation of wfCheck by the compiled model on every run of the C01 check); the theorems of the ISO path (date_success_valid, datetime_success_valid(_all), instant_success_valid(_all), datetime_segmented_success_valid) now carry the hypothesis patNoCal (no calendar field): patterns with the field are evaluated by the all-calendar bucket (evalType / segsUseCalendar dispatch in parsePat) and covered by the *_all / *_cal / *_spec theorems",
+        "the Instant adapter (ops inst.fmt / inst.parse, values = day number and nanosecond of day): parseInstant_spec: for EVERY accepted Instant pattern text (calendar field or not, embedded parts or not) parse never raises — the conversion Instant._ctor(days = date._days_since_epoch, ...) included — and a success is an Instant with INST_MIN_DAYS <= days <= INST_MAX_DAYS and a nanosecond of day inside the day; hypotheses AllWF (above) and CalExtents (every calendar lies inside the Instant range: evaluated by the compiled model on every run, op inst.extents, and compared with the code's _min_days / _max_days)",
+        "NOT covered by theorems: str.lower() for U+0130 / U+03A3 (every other character goes through the run's folding table cu.fold: all parse theorems hold for any table), ICU culture data extraction; exceptions originating in ICU or in culture construction are outside the model",
     ],
     "rule": "distinct = distinct (pattern, culture, text) triple / pattern text; non-trivial = the pattern exists and parse was invoked (creation stream: creation was attempted)",
 }
